@@ -151,3 +151,15 @@ check('C07',
       'of 18 sequences with either-operand-first error slack; six Boolean-algebra identities evaluated by the implementation.',
       'reference mc/models/atomcmp.py; for a general comparison whose reference outcome is an error, an error of any code or false is accepted (the property fixes when the result is true); order operators on binaries and untyped-to-QName/binary casts are not judged',
       'DESIGN.md section 3 C07')
+check('C09',
+      'bounded-exhaustive enumeration of string-function arguments against the F&O definitions, with libxml2 as second reference for XPath 1.0',
+      'Strings: every string of length <= 3 over an 8-character core and of length <= 2 over a 16-character alphabet (both letter cases, precomposed and '
+      'combining accents, an astral code point, the four XML whitespace characters, NBSP, sharp s, dotted capital I, %, quotes). substring on 7 subjects x '
+      'all (start, length) pairs of a 17-value double grid (NaN, +-INF, every half from -1.5 to 4.5, -0, 1e300, 0.49999999999999994) and inline '
+      'integer/decimal arguments; string-length, normalize-space, concat, upper/lower-case, string-to-codepoints, codepoints round trip, encode-for-uri, '
+      'iri-to-uri, escape-html-uri on all 858 strings; contains, starts-with, ends-with, substring-before/after (and the before+t+after identity), compare, '
+      'codepoint-equal, with and without the codepoint collation URI, on every (s, t) with |s| <= 3, |t| <= 2 over 5 characters; translate on every '
+      '(s, map, trans) over 4 characters; codepoints-to-string over boundary code points incl. non-XML characters; empty-sequence arguments. On the XPath '
+      '1.0, 2.0 and 3.1 parsers; the 1.0 results are additionally required to equal libxml2 (37 332 cases, no model/libxml2 disagreement).',
+      'reference mc/models/strfn.py; case mapping is the Unicode default mapping of the Python runtime; locale collations are C19',
+      'DESIGN.md section 3 C09')
